@@ -34,6 +34,9 @@ CHECKS = {
  "C11": ("E1-history-bfs", "explicit-state BFS over operation histories on the real stores, differential against a twin store and a reference set",
          "Every reachable state of 9 store types under direct and through-view mutations up to the stated depth is visited; in each state every view is compared with the projection of a reference quad set under all pattern shapes. Exhaustive within the bound, on the real code.",
          "Small-scope hypothesis (4 triples x 4 graph names, depth bound); rustc/std; the reference set model.", "DESIGN.md §4 C11"),
+ "C15": ("E1-history-bfs", "exhaustive fault enumeration: every (item sequence, source, adapter chain, drop sets, consumer, fault position) pipeline of the bounded space is executed on the real code and compared with a list model",
+         "All pipelines of <= 3/4 items x 4 sources x 40+16 adapter chains (every word of length <= 3 over filter/map/filter_map, and to_quads variants) x drop sets x 12 consumers x every single source-fault and sink-fault position (and their combinations) are run; the consumer must see exactly the filtered prefix before the fault, in order, the error must be attributed to the right side with the injected payload, counts must be right and the source must not be pulled after the fault.",
+         "Bounded item count and chain depth; parser read-ahead is not observed.", "DESIGN.md §4 C15"),
  "C17": ("E4-word-enumerator", "exhaustive enumeration of all ordered (base, IRI) pairs of a generated IRI set x all parent-step limits, each answer resolved back through the real resolver",
          "Every ordered pair of a structured IRI universe (authority/no authority, rooted/rootless/empty paths, empty and dot segments, ':' in segments, multi-byte characters, queries and fragments containing '/' and '?') is relativised under 5 parent-step limits; every returned reference is validated, resolved back and its parent steps counted; None is rejected only where the property promises a reference.",
          "Small-scope hypothesis (<= 2/3 path segments over an 8-segment alphabet); inverse taken w.r.t. the toolkit's resolver.", "DESIGN.md §4 C17"),
